@@ -108,7 +108,11 @@ def run(ctx):
                     c06.look(l, c)
         for sig, (cnt, l, detail) in c06.bad.items():
             t = l.split(" ")
+            v_, spec_, pats_, pre_, cmd_, stdin_, setup_ = c06.meta[l]
+            enc = lambda x: x.hex() if isinstance(x, (bytes, bytearray)) else x
             viol.append({"property": PID, "kind": "extracted-tree-differs-from-the-archive", "what": sig, "detail": detail, "cases_with_it": cnt,
+                         "expectation": {"v": v_, "spec": [[enc(y) for y in e] for e in spec_], "pats": [x.hex() for x in pats_],
+                                         "pre": pre_.hex(), "cmd": cmd_.hex(), "stdin_hex": stdin_.hex(), "setup": setup_},
                          "case": l, "argv": [x.decode("latin-1") for x in TC.case_argv(l)],
                          "stdin": common.unhex(t[6]).decode("latin-1")[:80], "sig": "tree:" + sig.split(":")[0][:40]})
         viol.sort(key=lambda v: len(v["case"]))
@@ -133,14 +137,27 @@ def replay(payload):
     cb = CBuild(PID)
     try:
         drv, rdrv = build(cb)
-        o = common.run_lines_parallel([drv], [payload["case"]])[0]
-        print("argv:", payload.get("argv"), "what:", payload.get("what"), payload.get("detail"))
-        res, dump = (o.split("|", 1) + [""])[:2]
-        print(res[:600])
-        for k, v in sorted(T.parse_dump(dump).items()):
-            if k.startswith(b"root"):
-                print("  ", k, v[0], v[1], v[2], (v[3] or b"")[:40])
-        print("compare the tree above with 'what'/'detail' (the expectation is regenerated only inside a check run)")
-        return 1
+        l = payload["case"]
+        o = TC.normalise_c(l, common.run_lines_parallel([drv], [l])[0])
+        print("argv:", payload.get("argv"), "recorded:", payload.get("what"), payload.get("detail"))
+        ex = payload.get("expectation")
+        if not ex:
+            print(o[:600])
+            return 1 if o.startswith(("rc=99", "rc=98", "rc=SIG")) else 0
+        def dec(e):
+            kind = e[0]
+            if kind == "file":
+                return ("file", bytes.fromhex(e[1]), bytes.fromhex(e[2]), e[3], e[4])
+            if kind == "dir":
+                return ("dir", bytes.fromhex(e[1]), e[2], e[3])
+            return ("link", bytes.fromhex(e[1]), bytes.fromhex(e[2]), e[3])
+        c06 = TC.C06()
+        c06.meta = {l: (ex["v"], [dec(e) for e in ex["spec"]], [bytes.fromhex(x) for x in ex["pats"]], bytes.fromhex(ex["pre"]),
+                        bytes.fromhex(ex["cmd"]), bytes.fromhex(ex["stdin_hex"]), ex["setup"])}
+        c06.look(l, o)
+        for sig, (cnt, ll, detail) in c06.bad.items():
+            print("deviation:", sig, detail)
+        print("REPRODUCED" if c06.bad else "not reproduced")
+        return 1 if c06.bad else 0
     finally:
         cb.close()
